@@ -43,6 +43,8 @@ pub struct Mon {
     pub accr: BTreeMap<String, Uint256>,
     // ---- configuration (C10, C20)
     pub token_addrs: (Option<String>, Option<String>),
+    /// two-step ownership model per contract: (owner, pending nominee)
+    pub owner_model: BTreeMap<String, (String, String)>,
     pub underlying_denom: Option<String>,
     pub stsei_reward_denom: Option<String>,
     // ---- tokens (C18)
@@ -66,6 +68,7 @@ impl Mon {
             self.underlying_denom = Some(h.params.underlying_coin_denom.clone());
             self.last_undelegation_time = Some(w.time);
         }
+        self.owner_model = obs.owners.clone();
         if let Some(d) = &obs.dispatcher {
             self.stsei_reward_denom = Some(d.stsei_reward_denom.clone());
         }
